@@ -403,6 +403,10 @@ pub fn run(ctx: &mut Ctx) {
     ctx.run_prop(&c07::PubSub, &datetime_round_boundary, t.pick(100_000, 3_000_000));
     ctx.run_prop(&c06::Sub, &c06::case, t.pick(300_000, 10_000_000));
     ctx.run_prop(&c09::NewSub, &c09::new_case, t.pick(200_000, 6_000_000));
+    // results of duration arithmetic and rounding at the 2^53 s limit (sums and balanced fields that only exceed it
+    // after rounding to a double)
+    ctx.run_prop(&c09::PairSub, &c09::pair_case, t.pick(200_000, 6_000_000));
+    ctx.run_prop(&c09::RoundSub, &c09::round_case, t.pick(200_000, 6_000_000));
     ctx.run_release_profile();
 }
 
@@ -420,6 +424,8 @@ pub fn replay(ctx: &mut Ctx, sub: &str, case: &Value) -> bool {
         "public" => ctx.replay_case(&c07::PubSub, case),
         "ops" => ctx.replay_case(&c06::Sub, case),
         "new" => ctx.replay_case(&c09::NewSub, case),
+        "pair" => ctx.replay_case(&c09::PairSub, case),
+        "round" => ctx.replay_case(&c09::RoundSub, case),
         _ => false,
     }
 }
